@@ -95,6 +95,116 @@ class PStream:
         return v
 
 
+def nxc(t):
+    return "--" if not t else "%02x" % ord(t[0])
+
+
+SEPS = [" ", "\n", "\t", "  ", " \n ", "\r\n", "\v", "\f", " \t "]
+
+
+def py_poly_read(text, p):
+    """Poly1Dom::read ("deg c_deg .. c_0", Integer-read coefficients) on ANY text, stream good at entry.
+    -> (coefficients low degree first mod p, rest, eof, fail) or None when the degree is not usable"""
+    ps = PStream(text)
+    v, r, e, f = py_numget(text, I64[0], I64[1], 0)
+    ps.t, ps.e, ps.f = r, e, f
+    if v < 0 or v > 100000:
+        return None
+    cs = [ps.read_int(0) for _ in range(v + 1)]
+    return ([c % p for c in reversed(cs)], ps.t, ps.e, ps.f)
+
+
+def poly_rem(cs, irr, p):
+    """cs mod irr over Z/p (lists low degree first), trailing zeros stripped"""
+    cs = [c % p for c in cs]
+    ir = [c % p for c in irr]
+    while ir and ir[-1] == 0:
+        ir.pop()
+    inv = pow(ir[-1], -1, p)
+    while len(cs) >= len(ir):
+        q = cs[-1] * inv % p
+        if q:
+            for i in range(len(ir)):
+                cs[len(cs) - len(ir) + i] = (cs[len(cs) - len(ir) + i] - q * ir[i]) % p
+        cs.pop()
+    while cs and cs[-1] == 0:
+        cs.pop()
+    return cs
+
+
+def seq_expect(sp):
+    """specification oracle for n reads into ONE variable: per read (value or None = not specified, 'ef' or None,
+    next character or None), then the characters left (or None).  The value never depends on what the variable held,
+    except that a failed Integer read leaves it untouched."""
+    typ, ps, out = sp["typ"], PStream(sp["text"]), []
+    cur = sp.get("old")
+    for _ in range(sp["n"]):
+        entry_good = ps.good()
+        v, ef_ok, nx_ok = None, True, True
+        if typ == "int" and sp.get("base"):
+            if not entry_good:
+                ps.f = True
+            else:
+                cur, r, e, f = py_int_read(ps.t, cur, sp["base"])
+                ps.t, ps.e, ps.f = r, e, f
+            v = str(cur)
+        elif typ == "int":
+            cur = ps.read_int(cur)
+            v = str(cur)
+        elif typ == "rat":
+            q = ps.read_rat()
+            v = None if q is None else "EXC" if q == "EXC" else "%d/%d" % q
+            if q == "EXC":
+                ef_ok = False
+            if ps.f or q == "EXC":
+                nx_ok = False
+        elif typ in ("elt", "gfq"):
+            p = sp["p"]
+            if not entry_good:
+                ps.f = True
+                z, f = 0, True
+            elif sp["reader"] == "int":
+                z, r, e, f = py_int_read(ps.t, 0)
+                ps.t, ps.e, ps.f = r, e, f
+            else:
+                z, r, e, f = py_numget(ps.t, sp["lo"], sp["hi"], 0)
+                ps.t, ps.e, ps.f = r, e, f
+            if entry_good and not f and abs(z) < p and (z >= 0 or sp.get("neg_ok")):
+                v = str(z % p)
+        elif typ in ("ru", "ri"):
+            N = 1 << sp["K"]
+            if not entry_good:
+                ps.f = True
+                g = 0
+            else:
+                g, r, e, f = py_int_read(ps.t, 0, 16 if sp["hex"] else 10)
+                ps.t, ps.e, ps.f = r, e, f
+            w = g % 2**N
+            if typ == "ri" and w >= 2**(N - 1):
+                w -= 2**N
+            if g >= 0 or typ == "ri":
+                v = str(w)
+        elif typ in ("poly", "ext"):
+            if not entry_good:
+                break                   # the harness stops: `long deg` would be read from a stream that is not good
+            p = sp["p"]
+            dg = ps.read_int(0)
+            if ps.f or dg < 0 or dg > 1000:
+                vs, bad = [ps.read_int(0) for _ in range(1 if ps.f else 0)], True
+            else:
+                vs, bad = [], False
+                for _ in range(dg + 1):
+                    vs.append(ps.read_int(0))
+                    bad = bad or ps.f
+            if not bad:
+                cs = [x % p for x in reversed(vs)]
+                if typ == "ext":
+                    cs = poly_rem(cs, sp["irr"], p)
+                v = ",".join(str(x) for x in cs) or "-"
+        out.append((v, st(ps.e, ps.f) if ef_ok else None, nxc(ps.t) if nx_ok else None))
+    return out, (hx(ps.t) if not (typ == "rat" and ps.f) else None)
+
+
 def py_rat_read(t):
     """rational: INTEGER [ blanks '/' INTEGER ].  -> (value or None = unspecified or 'EXC', rest, eof, fail).
     A value printed without denominator may be followed by blanks (they are consumed as look-ahead); when
@@ -598,6 +708,228 @@ def main(tier, replay=None):
             t = str(rng.range(0, 4)) + "".join(rng.choice([" ", "\n"]) + rng.choice([str(rng.below(p)), str(rng.below(min(p, 10))), "x", "-"]) for _ in range(rng.range(0, 5)))
             add("poly.read", "poly.read %s %d %s" % (name, p, hx(t)), "poly.read %d %d %s" % (bal, p, hx(t)), ring=name, p=p, text=t, fmt=False)
 
+    # ---- destinations that are NOT fresh: n values read one after the other into ONE variable that holds a previous
+    #      (larger / longer / negative / non-zero) value; value, eof/fail bits and next character after EACH read.
+    #      Deterministic part first (every separator kind, shrinking and growing values), then random sequences.
+    def add_seqd(kind, impl, model, **spec):
+        add(kind, impl, model, **spec)
+
+    int_olds = [2**200 + 12345, -(2**130), -7, 10**40, 0, 2**64]
+    int_vals = [2**64, -5, 0, 12, -(10**30), 7, -(2**63), 1]
+    for k, sep in enumerate(SEPS + [",", " ;"]):
+        vals = int_vals[k % 3:] + int_vals[:k % 3]
+        t = sep.join(str(v) for v in vals) + ["", sep, " "][k % 3]
+        n = len(vals) + 1
+        old = int_olds[k % len(int_olds)]
+        v = ("op", "zring")[k % 2]
+        add_seqd("int.seqd", "int.seqd.%s %d %d %s" % (v, old, n, hx(t)), "int.seqd %d %d %s" % (old, n, hx(t)), typ="int", old=old, n=n, text=t)
+    for i in range(30 * S):
+        n = rng.range(1, 5)
+        t = "".join(str(gen_int(rng)) + rng.choice(SEPS + [",", "x"] if rng.chance(1, 6) else SEPS) for _ in range(n))
+        if rng.chance(1, 3):
+            t = t.rstrip(WS)
+        old = rng.choice(int_olds + [gen_int(rng)])
+        n += rng.below(2)
+        v = rng.choice(["op", "zring"])
+        add_seqd("int.seqd", "int.seqd.%s %d %d %s" % (v, old, n, hx(t)), "int.seqd %d %d %s" % (old, n, hx(t)), typ="int", old=old, n=n, text=t)
+    rat_olds = [(-22, 7), (10**30, 1), (-(2**70), 2**64 + 1), (0, 1), (-3, 1)]
+    rat_vals = [(3, 1), (-1, 2), (0, 1), (-(2**70), 1), (-7, 1), (-2, 3), (5, 1), (2**64, 3)]
+    for k, sep in enumerate(SEPS):
+        vals = rat_vals[k % 4:] + rat_vals[:k % 4]
+        t = sep.join(str(a) if b == 1 else "%d/%d" % (a, b) for a, b in vals) + ["", sep, "  "][k % 3]
+        if k == 3:
+            t = t.replace("-7", "4/0", 1)        # Rational(4, 0) throws: the variable keeps the value read before
+        n = len(vals) + 1
+        on, od = rat_olds[k % len(rat_olds)]
+        v = ("op", "qfield")[k % 2]
+        add_seqd("rat.seqd", "rat.seqd.%s %d %d %d %s" % (v, on, od, n, hx(t)), "rat.seqd %d %d %d %s" % (on, od, n, hx(t)), typ="rat", n=n, text=t)
+    for i in range(30 * S):
+        n = rng.range(1, 5)
+        t = ""
+        for _ in range(n):
+            a, b = gen_rat(rng)
+            t += (str(a) if b == 1 else "%d/%d" % (a, b)) + rng.choice(SEPS)
+        if rng.chance(1, 3):
+            t = t.rstrip(WS)
+        on, od = rng.choice(rat_olds)
+        n += rng.below(2)
+        v = rng.choice(["op", "qfield"])
+        add_seqd("rat.seqd", "rat.seqd.%s %d %d %d %s" % (v, on, od, n, hx(t)), "rat.seqd %d %d %d %s" % (on, od, n, hx(t)), typ="rat", n=n, text=t)
+    for ri_, name in enumerate(sorted(RINGS)):
+        kind, reader, rng_lohi = RINGS[name]
+        ms = ring_moduli(name, maxc[name])
+        for pi_, p in enumerate([ms[0], ms[-1]] if len(ms) > 1 else ms):
+            zs = [p - 1, 0, 1, p // 2 + 1, 2 % p, p - 2]
+            reps = [rep_of(kind, p, z) for z in zs]
+            sep = SEPS[(ri_ + pi_) % len(SEPS)]
+            t = sep.join(str(r) for r in reps) + ["", sep][pi_ % 2]
+            n = len(reps) + 1
+            old = [p - 1, p // 2, 1][(ri_ + pi_) % 3]
+            lo, hi = rng_lohi if rng_lohi else (0, 0)
+            bal = 1 if kind == "bal" else 0
+            add_seqd("ring.seqd", "ring.seqd %s %d %d %d %s" % (name, p, old, n, hx(t)),
+                     "elt.seqd %d %d %d %d %d %d %s" % (bal, 0 if reader == "int" else 1, lo, hi, p, n, hx(t)),
+                     typ="elt", ring=name, p=p, n=n, text=t, reader=reader, lo=lo, hi=hi, neg_ok=(kind == "bal"))
+    for (w, p, k) in gf:
+        q = p ** k
+        zs = [q - 1, 0, 1, 2 % q, q // 2]
+        sep = SEPS[(p + k) % len(SEPS)]
+        t = sep.join(str(z) for z in zs) + sep
+        lo, hi = I32 if w == 32 else I64
+        add_seqd("gfq.seqd", "gfq.seqd %d %d %d %d %d %s" % (w, p, k, q - 1, len(zs) + 1, hx(t)),
+                 "elt.seqd 0 1 %d %d %d %d %s" % (lo, hi, q, len(zs) + 1, hx(t)),
+                 typ="gfq", p=q, n=len(zs) + 1, text=t, reader="word", lo=lo, hi=hi, neg_ok=True)
+    for K in (6, 7, 8, 9, 12):
+        N = 1 << K
+        for hexm in (0, 1):
+            if K == 12 and hexm:
+                continue
+            uv = [2**N - 1, 0, 2**64 if N > 64 else 256, 5, 2**(N - 1)]
+            sv = [-2**(N - 1), -1, 0, 2**(N - 1) - 1, -(2**64) if N > 64 else -256, 7]
+            if K == 12:
+                uv, sv = uv[:2] + [5], sv[:2] + [7]
+            sep = SEPS[(K + hexm) % len(SEPS)]
+            for sg, vals, old in (("ru", uv, 2**N - 1), ("ri", sv, -1 if hexm else -2**(N - 1))):
+                if hexm:
+                    txs = [("%x" % v) if (K == 6 and sg == "ru") else ("%0*x" % (N // 4, v % 2**N)) for v in vals]
+                else:
+                    txs = [str(v) for v in vals]
+                t = sep.join(txs) + ["", sep][hexm]
+                n = len(vals) + (1 if K < 12 else 0)
+                add_seqd(sg + ".seqd", "%s.seqd %d %d %d %d %s" % (sg, K, hexm, old, n, hx(t)), "%s.seqd %d %d %d %d %s" % (sg, K, hexm, old, n, hx(t)),
+                         typ=sg, K=K, hex=hexm, n=n, text=t)
+        for a in ([0, 9, 10**19, 2**N - 1] if K < 12 else [2**N - 1]):      # ruint<K>(const char*) of the text operator<< prints
+            add("ru.cstr", "ru.cstr %d 0 %d" % (K, a), None, K=K, a=a)
+    poly_shapes = [[5, 3, 1, 0], [0, 1, 3, 5], [2, 2, 0, 1], [4, 0, 4], [1, 0]]
+
+    def poly_text(rng_, p, kind_, degs, csep, psep, trail):
+        out_ = []
+        for dg in degs:
+            cs = [rng_.below(p) for _ in range(dg)] + [1 + rng_.below(p - 1)]
+            if dg >= 2:
+                cs[rng_.below(dg)] = 0
+            reps = [rep_of(kind_, p, c) for c in cs]
+            out_.append(str(dg) + "".join(csep + str(c) for c in reversed(reps)))
+        return psep.join(out_) + trail
+
+    for ri_, name in enumerate(POLY_RINGS):
+        kind, reader, _ = RINGS[name]
+        bal = 1 if kind == "bal" else 0
+        ps_ = ring_moduli(name, maxc[name])
+        if name == "bd":
+            ps_ = [q for q in ps_ if q < 2 * 10**6] + [1999993]
+        for si, degs in enumerate(poly_shapes + [[rng.below(7) for _ in range(rng.range(2, 5))] for _ in range(2 * S)]):
+            p = ps_[(si + ri_) % len(ps_)]
+            psep = SEPS[(si + ri_) % len(SEPS)]
+            t = poly_text(rng, p, kind, degs, [" ", "\n", "  "][si % 3], psep, ["", psep, "\n"][si % 3])
+            old = [[p - 1] * 8, [], [1], [p - 1] * 3, [0, 0, 0, 0, 0, 0, 1]][(si + ri_) % 5]
+            n = len(degs)
+            ostr = ",".join(str(c) for c in old) or "-"
+            add_seqd("poly.seqd", "poly.seqd %s %d %s %d %s" % (name, p, ostr, n, hx(t)),
+                     ("poly.seqd %d %d %s %d %s" % (bal, p, ostr, n, hx(t))) if reader == "int" else None,
+                     typ="poly", ring=name, p=p, n=n, text=t, degs=degs)
+        if reader == "int":         # a sequence cut short / with a bad coefficient: the reads after the failure
+            p = ps_[0]
+            for t in ["2 1 2 3\n1 4", "1 1 x\n0 5", "0 7 0"]:
+                add_seqd("poly.seqd", "poly.seqd %s %d %d,%d,%d,%d %d %s" % (name, p, p - 1, p - 1, p - 1, p - 1, 3, hx(t)),
+                         "poly.seqd %d %d %d,%d,%d,%d %d %s" % (bal, p, p - 1, p - 1, p - 1, p - 1, 3, hx(t)), typ="poly", ring=name, p=p, n=3, text=t, degs=None)
+    for (p, irr) in ((7, [1, 0, 1]), (101, [99, 0, 1]), (2, [1, 1, 0, 1]), (3, [1, 2, 0, 1, 1])):
+        for si, degs in enumerate(poly_shapes[:3]):
+            psep = SEPS[(si + p) % len(SEPS)]
+            t = poly_text(rng, p, "mod", degs, " ", psep, psep) if p > 2 else psep.join(str(d) + " 1" + " 1" * d for d in degs)
+            old = [[p - 1] * 8, [], [1, 1, 1, 1]][si % 3]
+            ostr = ",".join(str(c) for c in old) or "-"
+            add_seqd("ext.seqd", "ext.seqd %d %s %s %d %s" % (p, ",".join(str(c) for c in irr), ostr, len(degs), hx(t)), None,
+                     typ="ext", p=p, irr=irr, n=len(degs), text=t)
+    # what Poly1Dom::write prints, read by Poly1Dom::read into a variable that holds another polynomial
+    for c in [c for c in cases if c["kind"] == "poly.write"]:
+        sp = c["spec"]
+        name, p, var, cs = sp["ring"], sp["p"], sp["var"], sp["cs"]
+        old = rng.choice([[], [p - 1] * 7, [1], [0, 0], [2 % p, 0, 0, 3 % p]])
+        ostr = ",".join(str(x) for x in old) or "-"
+        cstr = ",".join(str(x) for x in cs) if cs else "-"
+        bal = 1 if sp["rkind"] == "bal" else 0
+        add("poly.wr", "poly.wr %s %d %s %s %s" % (name, p, hx(var), cstr, ostr),
+            ("poly.wr %s %d %d %s %s" % (hx(var), bal, p, cstr, ostr)) if RINGS[name][1] == "int" else None,
+            ring=name, p=p, var=var, cs=cs, rkind=sp["rkind"], old=old)
+
+    # ---- several values written one after the other to ONE ostream (a writer must leave the stream's flags alone), read back
+    #      from ONE istream into ONE variable
+    def rat_txt(a, b):
+        return str(a) if b == 1 else "%d/%d" % (a, b)
+
+    for k, sep in enumerate(SEPS + [","]):
+        vals = int_vals[k % 4:] + int_vals[:k % 4] + [gen_int(rng)]
+        t = sep.join(str(v) for v in vals)
+        old = int_olds[(k + 1) % len(int_olds)]
+        v = ("op", "print", "zring")[k % 3]
+        add("int.wseq", "int.wseq.%s %d %s %s %d" % (v, old, hx(sep), ",".join(str(x) for x in vals), len(vals) + 1),
+            "int.seqd %d %d %s" % (old, len(vals) + 1, hx(t)), typ="int", old=old, n=len(vals) + 1, text=t, site="Integer::print")
+    for k, sep in enumerate(SEPS[:6]):          # Integer on streams in hex / oct mode (GMP honours basefield on both sides)
+        b = (16, 8)[k % 2]
+        vals = int_vals[k % 4:] + int_vals[:k % 4] + [gen_int(rng)]
+        t = sep.join(("-" if v < 0 else "") + (("%x" if b == 16 else "%o") % abs(v)) for v in vals)
+        add("int.wseqb", "int.wseqb %d %d %s %s %d" % (b, -77, hx(sep), ",".join(str(x) for x in vals), len(vals) + 1), None,
+            typ="int", old=-77, n=len(vals) + 1, text=t, base=b, site="Integer::print base %d" % b)
+    for k, sep in enumerate(SEPS):
+        vals = rat_vals[k % 5:] + rat_vals[:k % 5] + [gen_rat(rng)]
+        t = sep.join(rat_txt(a, b) for a, b in vals)
+        on, od = rat_olds[(k + 2) % len(rat_olds)]
+        v = ("op", "print", "qfield")[k % 3]
+        add("rat.wseq", "rat.wseq.%s %d %d %s %s %d" % (v, on, od, hx(sep), ",".join("%d/%d" % x for x in vals), len(vals) + 1),
+            "rat.seqd %d %d %d %s" % (on, od, len(vals) + 1, hx(t)), typ="rat", n=len(vals) + 1, text=t, site="Rational::print")
+    for ri_, name in enumerate(sorted(RINGS)):
+        kind, reader, rng_lohi = RINGS[name]
+        p = ring_moduli(name, maxc[name])[-1]
+        zs = [1, p - 1, 0, p // 2 + 1, rng.below(p), p // 2, 2 % p]
+        sep = SEPS[(ri_ + 3) % len(SEPS)]
+        t = sep.join(str(rep_of(kind, p, z)) for z in zs)
+        lo, hi = rng_lohi if rng_lohi else (0, 0)
+        bal = 1 if kind == "bal" else 0
+        add("ring.wseq", "ring.wseq %s %d %d %s %s %d" % (name, p, p - 1, hx(sep), ",".join(str(z) for z in zs), len(zs) + 1),
+            "elt.seqd %d %d %d %d %d %d %s" % (bal, 0 if reader == "int" else 1, lo, hi, p, len(zs) + 1, hx(t)),
+            typ="elt", ring=name, p=p, n=len(zs) + 1, text=t, reader=reader, lo=lo, hi=hi, neg_ok=(kind == "bal"),
+            site=RING_CXX.get(name, "Modular<%s>" % name) + "::write")
+    for K in (6, 7, 8, 9):
+        N = 1 << K
+        for hexm in (0, 1):
+            sep = SEPS[(K + 2 * hexm) % len(SEPS)]
+            for sg, vals, old in (("ru", [5, 2**N - 1, 0, 2**64 if N > 64 else 256, rng.bits(N), 10**19], 2**N - 1),
+                                  ("ri", [7, -2**(N - 1), -1, 0, 2**(N - 1) - 1, -(rng.bits(N - 2)), 10**18], -1)):
+                if hexm:
+                    txs = [("%x" % v) if (K == 6 and sg == "ru") else ("%0*x" % (N // 4, v % 2**N)) for v in vals]
+                else:
+                    txs = [str(v) for v in vals]
+                t = sep.join(txs)
+                add(sg + ".wseq", "%s.wseq %d %d %d %s %s %d" % (sg, K, hexm, old, hx(sep), ",".join(str(v) for v in vals), len(vals) + 1),
+                    "%s.seqd %d %d %d %d %s" % (sg, K, hexm, old, len(vals) + 1, hx(t)), typ=sg, K=K, hex=hexm, n=len(vals) + 1, text=t,
+                    site="RecInt::operator<<(%s)" % ("ruint" if sg == "ru" else "rint"))
+    for ri_, name in enumerate(POLY_RINGS):
+        kind, reader, _ = RINGS[name]
+        ps_ = ring_moduli(name, maxc[name])
+        if name == "bd":
+            ps_ = [q for q in ps_ if q < 2 * 10**6] + [1999993]
+        for j in range(2):
+            p = ps_[(j + ri_) % len(ps_)]
+            var = VARS[(ri_ + j) % len(VARS)]
+            pols = [[1, p - 1, 0, 2 % p], [], [1], [0, 1], [rng.below(p) for _ in range(rng.range(1, 6))], [p - 1]][j:j + 5]
+            sep = ["\n", " ; ", " ", "\t"][(ri_ + j) % 4]
+            t = sep.join(py_poly_text(var, [rep_of(kind, p, c) for c in cs]) for cs in pols)
+            add("poly.wseq", "poly.wseq %s %d %s %s %s" % (name, p, hx(var), hx(sep), ";".join(",".join(str(c) for c in cs) or "-" for cs in pols)), None,
+                ring=name, p=p, var=var, text=t)
+    for k in range(8 + 4 * S):
+        sep = [" ", "\n", "\t", "  ", " \n", "\r\n"][k % 6]
+        p = [101, 2147483629, 3, 65521][k % 4]
+        z, z2 = (gen_int(rng), gen_int(rng)) if k >= 4 else [(-(2**64), 7), (0, -1), (10**30, 2**63), (-5, 0)][k]
+        (n1, d1), (n2, d2) = (gen_rat(rng), gen_rat(rng)) if k >= 3 else [((3, 1), (-1, 2)), ((-7, 3), (5, 1)), ((0, 1), (0, 1))][k]
+        e, bb = rng.below(p), rng.below(p)
+        u, u8 = rng.bits(128) if k % 2 else 2**128 - 1, rng.bits(256) if k % 3 else 2**256 - 1
+        s7 = -(2**127) if k == 0 else rng.bits(126) * (-1 if k % 2 else 1)
+        g = k % 2
+        cs = [[1, 2], [], [1], [0, 0, 1], [p - 1, 1]][k % 5] if k < 5 else [rng.below(p) for _ in range(rng.range(0, 4))]
+        add("mix.rt", "mix.rt %s %d %d %d %d %d %d %d %d %d %s %d %d %d %d" % (hx(sep), z, n1, d1, p, e, u, s7, bb, g, ",".join(str(c) for c in cs) or "-", z2, u8, n2, d2),
+            None, sep=sep, z=z, q=(n1, d1), p=p, e=e, u=u, s7=s7, bb=bb, g=g, cs=cs, z2=z2, u8=u8, q2=(n2, d2))
+
     if replay:
         try:
             import json
@@ -761,7 +1093,139 @@ def judge(chk, c, got, mline, gfq_texts):
 
     mt = mline.split() if mline is not None else None
 
-    if kind in ("int.write", "int.abs"):
+    def pair_failure(name, p, reps, text, g3):
+        """Poly1Dom::read did not give back what Poly1Dom::write printed.  g3 = [coefficients, rest, state] observed."""
+        pred = py_poly_read(text, p)
+        as_predicted = False
+        if pred is not None and g3 is not None and pred[3]:
+            pcs, prest, pe, pf = pred
+            as_predicted = g3[1:] == [hx(prest), st(pe, pf)] and len(g3[0].split(",")) == len(pcs)
+            if RINGS[name][1] == "int":       # other readers leave the coefficients read after the failure unspecified
+                as_predicted = as_predicted and g3[0] == ",".join(str(x) for x in pcs)
+        if as_predicted:
+            nz = [x for x in reps if x != 0]
+            fail("Poly1Dom::read(write)", "zero polynomial" if not nz else "nonzero polynomial", "the polynomial written, stream not failed",
+                 "Poly1Dom::read does not parse what Poly1Dom::write prints (observed = what the degree-prefixed reader does with that text)")
+        else:
+            fail("Poly1Dom::read", "text written by Poly1Dom::write", "none" if pred is None else "%s %s %s" % (",".join(str(x) for x in pred[0]), hx(pred[1]), st(pred[2], pred[3])),
+                 "not what the degree-prefixed reader does with `%s`" % text[:120])
+
+    if kind == "poly.wseq":
+        if got != [hx(sp["text"])]:
+            fail("Poly1Dom::write (several polynomials on one stream)", "text", hx(sp["text"]), "expected `%s`" % sp["text"][:200])
+    elif kind == "mix.rt":
+        p = sp["p"]
+        items = [str(sp["z"]), "%d" % sp["q"][0] if sp["q"][1] == 1 else "%d/%d" % sp["q"], str(sp["e"] % p), str(sp["u"]), str(sp["s7"]),
+                 str(rep_of("bal", p, sp["bb"])), str(sp["g"]), py_poly_text("X", [c % p for c in sp["cs"]]), str(sp["z2"]), str(sp["u8"]),
+                 "%d" % sp["q2"][0] if sp["q2"][1] == 1 else "%d/%d" % sp["q2"]]
+        text = sp["sep"].join(items)
+        ps = PStream(text)
+        exp = []
+
+        def tok(v):
+            exp.append("%s:%s:%s" % (v, st(ps.e, ps.f), nxc(ps.t)))
+        tok(ps.read_int(-99))
+        tok("%d/%d" % ps.read_rat())
+        tok(ps.read_int(0) % p)
+        tok(ps.read_int(0) % 2**128)
+        tok(ps.read_int(0))
+        v, r, e, f = py_numget(ps.t, I64[0], I64[1], 0)
+        ps.t, ps.e, ps.f = r, e, f
+        tok(rep_of("bal", p, v))
+        v, r, e, f = py_numget(ps.t, 0, 1, 0)
+        ps.t, ps.e, ps.f = r, e, f
+        tok(v)
+        ps.t = ps.t.lstrip(WS)[len(items[7]):]
+        tok(ps.read_int(-99))
+        tok(ps.read_int(0) % 2**256)
+        tok("%d/%d" % ps.read_rat())
+        expl = [hx(text)] + exp + [hx(ps.t)]
+        if got[:1] != expl[:1]:
+            fail("operator<< / write (values of several types on one stream)", "text", hx(text), "expected `%s`" % text[:300])
+        elif got != expl:
+            fail("operator>> / read (values of several types from one stream)", "seq", " ".join(expl))
+    elif kind.endswith((".seqd", ".wseq", ".wseqb")):
+        if not kind.endswith(".seqd"):
+            if got[:1] != [hx(sp["text"])]:
+                fail(sp["site"] + " (several values on one stream)", "text", hx(sp["text"]), "expected `%s`" % sp["text"][:200])
+            got = got[1:]
+            raw = " ".join(got)
+        exp, erest = seq_expect(sp)
+        toks, grest = got[:-1], (got[-1] if got else "")
+        typ = sp["typ"]
+        site = {"int": "Integer::operator>> (same variable)", "rat": "Rational::operator>> (same variable)",
+                "elt": RING_CXX.get(sp.get("ring"), "Modular<%s>" % sp.get("ring")) + "::read (same variable)", "gfq": "GFqDom::read (same variable)",
+                "ru": "RecInt::operator>>(ruint) (same variable)", "ri": "RecInt::operator>>(rint) (same variable)",
+                "poly": "Poly1Dom::read (same variable)", "ext": "Extension::read (same variable)"}[typ]
+
+        def normv(v):
+            if typ in ("poly", "ext"):
+                cs = [] if v == "-" else v.split(",")
+                if typ == "ext":
+                    while cs and cs[-1] == "0":
+                        cs.pop()
+                return ",".join(cs) or "-"
+            if typ == "rat" and v.startswith("EXC="):
+                return "EXC"
+            return v
+        ok = len(toks) == len(exp) and (erest is None or grest == erest)
+        if ok:
+            for (ev, eef, enx), tk in zip(exp, toks):
+                parts = tk.split(":")
+                if len(parts) != 3 or (ev is not None and normv(parts[0]) != ev) or (eef is not None and parts[1] != eef) or (enx is not None and parts[2] != enx):
+                    ok = False
+                    break
+        if not ok:
+            klass = "seq"
+            if typ == "rat" and re.search(r"(^|[\t\n\v\f\r ])[+-]?[0-9]+ +$", sp["text"]):
+                klass = "integer, blanks, end of stream"
+            fail(site, klass, " ".join("%s:%s:%s" % tuple("?" if x is None else x for x in e) for e in exp) + " " + str(erest),
+                 "%d reads into one variable from `%s`" % (sp["n"], sp["text"][:120]))
+        if mt is not None and not failed[0]:
+            # correspondence: token by token; values of the ring readers modulo p; nothing after the harness stopped
+            mtoks, mrest = mt[:-1], mt[-1]
+            p_ = sp.get("p")
+            good_entry = True
+            bad = len(mtoks) < len(toks)
+            for k_, tk in enumerate(toks):
+                if bad:
+                    break
+                mp_, ip_ = mtoks[k_].split(":"), tk.split(":")
+                mv, iv = mp_[0], ip_[0]
+                if typ in ("elt", "gfq"):
+                    mv = str(int(mv) % p_)
+                    if sp["reader"] != "int" and (k_ >= len(exp) or exp[k_][0] is None):
+                        mv = iv              # `T tmp; is >> tmp;` when the sentry fails (stream not good, or only white space left): tmp is not assigned
+                if typ == "poly":
+                    mv = ",".join(str(int(x) % p_) for x in mv.split(",")) if mv != "-" else "-"
+                if [mv] + mp_[1:] != [iv] + ip_[1:]:
+                    bad = True
+                good_entry = ip_[1] == "00"
+            if not bad and len(toks) == len(mtoks) and mrest != grest:
+                bad = True
+            if not bad and len(toks) < len(mtoks) and toks and toks[-1].split(":")[1] == "00":
+                bad = True               # the harness stops only when the stream is not good
+            if bad:
+                chk.broke("correspondence model/implementation differs on `%s`: model=%s impl=%s" % (c["impl"][:300], mline[:300], raw[:300]))
+    elif kind == "ru.cstr":
+        exp = [hx(str(sp["a"])), str(sp["a"])]
+        if got != exp:
+            fail("RecInt::ruint(const char*)(operator<<)", "K=%d" % sp["K"], " ".join(exp))
+    elif kind == "poly.wr":
+        # got = text coefficients rest state   (Poly1Dom::write, then Poly1Dom::read into a variable holding sp["old"])
+        name, p, var, cs = sp["ring"], sp["p"], sp["var"], sp["cs"]
+        reps = [rep_of(sp["rkind"], p, x) % p for x in cs]
+        while reps and reps[-1] == 0:
+            reps.pop()
+        text = unhx(got[0]) if got else ""
+        g3 = got[1:] if len(got) == 4 else None
+        want = ",".join(str(x) for x in reps) or "-"
+        if g3 is None or g3[0] != want or g3[2][1] == "1":
+            pair_failure(name, p, reps, text, g3)
+        if mt is not None:
+            mm = mt[:1] + [",".join(str(int(x) % p) for x in mt[1].split(",")) if mt[1] != "-" else "-"] + mt[2:]
+            corr(mm, got)
+    elif kind in ("int.write", "int.abs"):
         exp = hx(str(abs(sp["z"]) if kind == "int.abs" else sp["z"]))
         if got != [exp]:
             fail("Integer::print" if kind == "int.write" else "absOutput", sp.get("variant", "abs"), exp, "text is not the decimal numeral")
@@ -1001,11 +1465,10 @@ def judge(chk, c, got, mline, gfq_texts):
             if mp is not None and mp != wantl:
                 chk.broke("the extracted reference parser (C19_poly_text_parse) does not recover the polynomial from the implementation's text `%s`: %s, expected %s"
                           % (text[:200], mp, wantl))
-            # is there a reader for it?  Poly1Dom::read expects "deg c_deg ... c_0"
+            # is there a reader for it?  Poly1Dom::read expects "deg c_deg ... c_0".  The known finding covers exactly
+            # what that reader does with the algebraic text (predicted here); anything else is a new failure.
             if len(got) < 2 or got[1] != "1" or (len(got) >= 5 and got[4][1] == "1"):
-                nz = [x for x in reps if x != 0]
-                fail("Poly1Dom::read(write)", "zero polynomial" if not nz else "nonzero polynomial", "the polynomial written, stream not failed",
-                     "Poly1Dom::read does not parse what Poly1Dom::write prints")
+                pair_failure(name, p, reps, text, got[2:] if len(got) == 5 else None)
     elif kind == "poly.read":
         name, p = sp["ring"], sp["p"]
         if sp["fmt"]:
